@@ -201,6 +201,7 @@ def jobs(tier, seed):
             ([E] * np_, 0.5, 2.0), ([E, F_, Ei][:np_], 0.5, 2.0), ([E, 1.5, 0.25][:np_], 0.5, 2.0), ([1.5, E, 0.75][:np_], E, 2.0),
             ([E, F_, 0.5][:np_], F_, Ei), ([0.5, 1.5, 2.0][:np_], E, F_), ([0.5, 1.5, 2.0][:np_], 0.0, E), ([CV, E, M][:np_], 0.5, CV),
             ([0.5, 1.5, 2.0][:np_], 0.25, 1.75),
+            ([2, E, F_][:np_], 0.5, 2.0), ([3, 0.5, E][:np_], E, 2),          # plain Python ints among the parameters / limits (numpy infers dtypes from first elements)
         ]
         for p, a, b in cases:
             add('quad', family=fam, pdesc=p, adesc=a, bdesc=b)
